@@ -21,6 +21,7 @@ RULE = (
     "case hash."
 )
 ASSUMPTIONS = [
+    "grids with a derived face centre inside the documented pole cap (within 2e-4 rad of a pole, not on it) give no verdict on face distances and gradients (their node distances are judged)",
     "'edge e' is the grid's own edge_node_connectivity / edge_face_connectivity row e (C02/C03 judge those)",
     "derived distances are accepted in radians or, consistently for all edges, in degrees (the property fixes no unit)",
     "normalised gradient: unit Euclidean norm of the whole array or of every leading slice is accepted",
@@ -39,7 +40,7 @@ def _case(draw, tier):
     if src == "mpas":
         mesh = draw(meshgen.voronoi_mesh(6, 26 if big else 14))
     else:
-        mesh = draw(meshgen.any_mesh(max_pts=34 if big else 16, tiny=True))
+        mesh = draw(meshgen.any_mesh(max_pts=34 if big else 16, tiny=True, polar=True))
     centred = draw(sampled_from(["face", "face", "node"]))
     n = len(mesh["faces"]) if centred == "face" else len(mesh["nodes"])
     return {
@@ -131,6 +132,11 @@ def run_case(case, ctx):
             bad("edge_node_distance", "wrong", f"edge {i} nodes {en[i].tolist()}: {end[i]!r} expected {ref_nd[i]!r} rad")
 
     # ---- edge_face_distances
+    if winfo is None and any(1e-15 < float(np.hypot(c[0], c[1])) / max(float(np.linalg.norm(c)), 1e-300) < 2e-4 for c in np.asarray(cxyz, float)):
+        # a derived face centre inside the library's documented pole cap (|z| > 1 - 1e-8) is reported at the pole itself:
+        # distances between such centres are only defined to that tolerance (as large as the distances themselves)
+        ctx.label("no-verdict:face-centre-in-pole-cap")
+        return fails
     efd = np.array(g.edge_face_distances.values, dtype=float, copy=True)
     interior = (ef[:, 0] != FILL) & (ef[:, 1] != FILL)
     ref_fd = np.zeros(n_edge)
